@@ -235,7 +235,19 @@ func (w *world) check(got map[int][3][]byte, stream []byte, effective, config, t
 	rows := append([]row{}, w.rows...)
 	w.mu.Unlock()
 	cols := []string{"enc/acrablock", "enc/acrastruct", "token/str"}
+	// foreign rows first (the property's own clause), then the session's own rows
+	ordered := make([]row, 0, len(rows))
 	for _, rw := range rows {
+		if rw.owner != effective {
+			ordered = append(ordered, rw)
+		}
+	}
+	for _, rw := range rows {
+		if rw.owner == effective {
+			ordered = append(ordered, rw)
+		}
+	}
+	for _, rw := range ordered {
 		plain := [3][]byte{rw.ab, rw.as, rw.tk}
 		g, delivered := got[rw.id]
 		for k := 0; k < 3; k++ {
@@ -304,11 +316,10 @@ func round(r *ev.Run, rng *gen.Rand, idx int, my bool) {
 	var pgFront *fakepg.TLSFront
 	var mySrv *fakemysql.Server
 	if my {
-		mySrv, err = fakemysql.NewServer(db)
+		mySrv, err = fakemysql.NewServerTLS(db, dbTLS)
 		if err != nil {
 			panic(err)
 		}
-		mySrv.TLS = dbTLS
 		closers = append(closers, mySrv.Close)
 		dbPort = mySrv.Port()
 	} else {
@@ -400,7 +411,7 @@ func round(r *ev.Run, rng *gen.Rand, idx int, my bool) {
 				as: append([]byte(fmt.Sprintf("MKas%s%08x", owner, rng.Uint32())), gen.Bytes(rng, 4+rng.Intn(40))...),
 				tk: []byte(fmt.Sprintf("MKtk%s%08xzz", owner, rng.Uint32()))}
 			if err := s.insert(rw); err != nil {
-				r.Violation(fmt.Sprintf("proxy identity: write failed: db=%s transport=%s", dbName, s.label), w.details(map[string]interface{}{"err": err.Error()}))
+				r.Violation(fmt.Sprintf("proxy identity: write under the session's identity failed: session identity=%s db=%s transport=%s", readerClass(owner), dbName, s.label), w.details(map[string]interface{}{"err": err.Error()}))
 				return false
 			}
 			w.mu.Lock()
@@ -434,11 +445,9 @@ func round(r *ev.Run, rng *gen.Rand, idx int, my bool) {
 			if s == nil {
 				return false
 			}
-			ok := write(s, effective(ws.cfg, ws.cert), ws.n)
+			// a failed write is reported; the round goes on with the rows that exist (the read oracles do not depend on it)
+			write(s, effective(ws.cfg, ws.cert), ws.n)
 			s.close()
-			if !ok {
-				return false
-			}
 		}
 		return true
 	}
